@@ -44,6 +44,8 @@ enum Act {
     NewProbe,
     /// NEW executed by a stored line (typed at the given number), then the probes
     NewInProgramProbe(&'static str),
+    /// LOAD of a file holding the current listing, then the probes
+    LoadProbe,
 }
 
 struct Model {
@@ -52,7 +54,7 @@ struct Model {
     only_prog: Option<usize>,
 }
 
-const PROBES: [&str; 10] = [
+const PROBES: [&str; 13] = [
     // CONT first: a failing direct statement drops a pending continuation
     "CONT",
     "PRINT B(7);Q(7);A;A%;A#;A$;B(2);S;X;I;W;Q(1);D;K",
@@ -62,6 +64,10 @@ const PROBES: [&str; 10] = [
     "CONT",
     "PRINT FNA(1)",
     "READ Z:PRINT Z",
+    // constants added after the reset are read from the first one
+    "64000 DATA 77,78",
+    "READ Z1:PRINT Z1",
+    "RESTORE:READ Z2:PRINT Z2",
     "A1=1.5:S1$=\"s\":PRINT A1;S1$",
     "LIST",
 ];
@@ -100,6 +106,7 @@ fn model(depth: usize, only_prog: Option<usize>) -> Model {
     acts.push(("RUN".into(), Act::Run));
     acts.push(("CLEAR+probes".into(), Act::ClearProbe));
     acts.push(("NEW+probes".into(), Act::NewProbe));
+    acts.push(("LOAD+probes".into(), Act::LoadProbe));
     acts.push(("15 NEW+RUN+probes".into(), Act::NewInProgramProbe("15 NEW")));
     acts.push(("25 PRINT \"n\";:NEW+RUN+probes".into(), Act::NewInProgramProbe("25 PRINT \"n\";:NEW")));
     Model { acts, depth, only_prog }
@@ -136,7 +143,7 @@ impl SpaceModel for Model {
                 // a panic is C03's business unless it happens on a transition this check judges
                 let mut viols = vec![];
                 let last = hist.len().saturating_sub(1);
-                if at.get() == last && matches!(self.acts[hist[last]].1, Act::Run | Act::ClearProbe | Act::NewProbe | Act::NewInProgramProbe(_)) {
+                if at.get() == last && matches!(self.acts[hist[last]].1, Act::Run | Act::ClearProbe | Act::NewProbe | Act::NewInProgramProbe(_) | Act::LoadProbe) {
                     viols.push((format!("{}/panic", self.acts[hist[last]].0), p));
                 }
                 Some(Step { digest: hash64(&("panic", hist)), viols, nontrivial: None, terminal: true })
@@ -223,10 +230,16 @@ impl Model {
                         }
                     }
                 }
-                Act::ClearProbe | Act::NewProbe | Act::NewInProgramProbe(_) => {
-                    let is_new = *act != Act::ClearProbe;
+                Act::ClearProbe | Act::NewProbe | Act::NewInProgramProbe(_) | Act::LoadProbe => {
+                    // (LOAD of the listing itself: afterwards like a fresh interpreter holding it)
+                    let is_new = !matches!(act, Act::ClearProbe | Act::LoadProbe);
                     let now = s.listing_text();
-                    if let Act::NewInProgramProbe(line) = act {
+                    if *act == Act::LoadProbe {
+                        let text: String = now.iter().map(|l| format!("{}\n", l)).collect();
+                        s.files.retain(|(n, _)| n != "self");
+                        s.files.push(("self".to_string(), text));
+                        s.enter("LOAD \"self\"");
+                    } else if let Act::NewInProgramProbe(line) = act {
                         s.enter(line);
                         s.replies = replies().into_iter().collect();
                         s.enter("RUN");
@@ -251,7 +264,7 @@ impl Model {
                         nontrivial = Some(hash64(&(prog, is_new, &exp)));
                         if got != exp {
                             viols.push((
-                                format!("{}/state-differs-from-start-up", if is_new { "NEW" } else { "CLEAR" }),
+                                format!("{}/state-differs-from-start-up", if *act == Act::LoadProbe { "LOAD" } else if is_new { "NEW" } else { "CLEAR" }),
                                 format!("probes gave {:?}, in a fresh interpreter {:?}", got, exp),
                             ));
                         }
